@@ -22,7 +22,7 @@ from core.loader import AnalysisError, FuncInfo, Repo, norm, parent
 from core.report import Result
 
 from .c05_shapes import LOOKUP, D, Shapes, _is_empty_literal
-from .c05_views import Production, all_nodes, assignments_of, dview, key_of, productions, single_value, value_cases, where_of
+from .c05_views import family, Production, all_nodes, assignments_of, dview, key_of, productions, single_value, value_cases, where_of
 from .common import conds, types_of, where
 from .tables import LAYER_DETECTOR, Inliner, bucket_wiring
 
@@ -81,8 +81,7 @@ def check_detector(repo: Repo, res: Result) -> None:
     ld = repo.cls(LAYER_DETECTOR, "LayerRuleViolationDetector")
     ld_mro = {c.fq for c in repo.mro(ld)}
 
-    def allow(caller: FuncInfo, callee: FuncInfo) -> bool:
-        return callee.cls is not None and callee.cls.fq in ld_mro
+    allow = family(repo, ld)
 
     k3 = k4 = 0
     seen_orient: set[str] = set()
@@ -138,7 +137,7 @@ def check_detector(repo: Repo, res: Result) -> None:
             else:
                 res.add("C05.R3", f"{head}::{b.field} judged on filtered data", ok3, "the 'is there any other access' decision is made on the same-layer-filtered dependencies" if ok3 else why, where(m, m.node), kind="flow")
                 if ok3:
-                    res.add("C05.R4", f"{head}::{b.field} lenient", bool(ok4), "one realised access by any module of the layer satisfies the requirement" if ok4 else "the layer requirement is judged per module instead of per layer", where(m, m.node), kind="structural")
+                    res.add("C05.R4", f"{head}::{b.field} lenient", bool(ok4), "one realised access by any module of the layer satisfies the requirement" if ok4 else (why or "the layer requirement is judged per module instead of per layer"), where(m, m.node), kind="structural")
         elif src == "E" and mode == "absent":
             k4 += 1
             ok3, ok4, why = _absent_guard(view, sh, keyp, jmap, "E")
@@ -196,6 +195,8 @@ def _absent_guard(view: FuncInfo, sh: Shapes, keyp: list[Production], jmap: dict
             alls = [a for a in ats if a.startswith(f"ALL:{src}")]
             glob = [a for a in ats if a.startswith(f"ANY:{src}:ALL-LAYERS")]
             dirty = [a for a in ats if a.startswith(f"ANY:{src}:") and a != want[1]]
+            if want[1] in ats:
+                return (False if src == "O" else True), False, f"`{norm(p.elt, 50)}` is reported missing although a realised pair of the layer may exist: the decision whether the layer has a realised pair does not suppress the report"
             if src == "O" and dirty and not glob:
                 return False, False, f"missing 'other' dependencies are reported depending on `{dirty[0]}`: the decision is not made on same-layer-filtered pairs"
             if glob:
